@@ -93,8 +93,40 @@ def waveage_rule(repo, rep):
         rep.ok("R-C09-1", f"{fi.file}:{cos[0].lineno} waveage", unparse(rr), "agefac * wspd * cos(D2R * (dir - wdir))")
 
 
+def _name_concat_parts(fi):
+    """`xr.concat([x.where(a), x.where(b)], dim=..)` is the same program as binding the two masked objects to names first: give
+    the list elements names so that one set of checks serves both spellings."""
+    for st in ast.walk(fi.node):
+        for f_ in ("body", "orelse"):
+            lst = getattr(st, f_, None)
+            if not (isinstance(lst, list) and lst and isinstance(lst[0], ast.stmt)):
+                continue
+            for i, s_ in enumerate(list(lst)):
+                for n in ast.walk(s_) if not isinstance(s_, (ast.For, ast.While, ast.If, ast.With, ast.Try, ast.FunctionDef)) else []:
+                    if isinstance(n, ast.Call) and call_name(n) in ("xr.concat", "xarray.concat") and n.args and isinstance(n.args[0], (ast.List, ast.Tuple)) \
+                            and any(isinstance(e, ast.Call) for e in n.args[0].elts):
+                        new = []
+                        for k, e in enumerate(n.args[0].elts):
+                            if isinstance(e, ast.Call):
+                                nm = f"_concat_part{k}"
+                                a = ast.Assign(targets=[ast.Name(id=nm, ctx=ast.Store())], value=e)
+                                ast.copy_location(a, s_)
+                                ast.fix_missing_locations(a)
+                                a._parent = st
+                                for x in ast.walk(a):
+                                    for ch in ast.iter_child_nodes(x):
+                                        ch._parent = x
+                                new.append(a)
+                                nn = ast.copy_location(ast.Name(id=nm, ctx=ast.Load()), e)
+                                nn._parent = n.args[0]
+                                n.args[0].elts[k] = nn
+                        j = lst.index(s_)
+                        lst[j:j] = new
+
+
 def ptm4_rule(repo, rep):
     fi = repo.func(f"{PART}.ptm4")
+    _name_concat_parts(fi)
     mask = None
     for n in ast.walk(fi.node):
         if isinstance(n, ast.Assign) and isinstance(n.value, ast.Call) and call_name(n.value).split(".")[-1] == "waveage":
@@ -148,6 +180,7 @@ def _fillna(rep, fi, rule):
 
 def ptm5_rule(repo, rep):
     fi = repo.func(f"{PART}.ptm5")
+    _name_concat_parts(fi)
     wheres = {}
     for n in ast.walk(fi.node):
         if isinstance(n, ast.Assign) and isinstance(n.value, ast.Call) and isinstance(n.value.func, ast.Attribute) and n.value.func.attr == "where":
